@@ -151,9 +151,10 @@ Proof.
   - apply assign_ext; assumption.
   - apply IH; assumption.
 Qed.
-Lemma ev_defaults_ext : forall os st0 st sc f, ext st0 st -> ext st0 (snd (ev_defaults m ev st sc f os)).
+Lemma ev_defaults_ext : forall os st0 st sc bnd, ext st0 st -> ext st0 (snd (ev_defaults m ev st sc bnd os)).
 Proof.
-  induction os as [|[x e] os IH]; intros; simpl; ext_go; apply IH; ext_go.
+  induction os as [|[x e] os IH]; intros; simpl; ext_go; apply IH; try assumption.
+  change (mkSt (frames s ++ [[(x, a0)]]) (funs s) (trace s)) with (snd (alloc s [(x, a0)])). ext_go.
 Qed.
 Lemma apply_fn_ext : forall st0 st c args, ext st0 st -> ext st0 (snd (apply_fn m ev st c args)).
 Proof.
